@@ -64,28 +64,34 @@ def lake_build(targets, timeout=3000):
     return rc == 0, out
 
 
-def props_file(pid):
-    return os.path.join(LEAN, "Amshan", "Props", f"{pid}.lean")
+def props_files(pid):
+    """Props/<pid>.lean and Props/<pid><Suffix>.lean (e.g. C01Framing.lean)."""
+    d = os.path.join(LEAN, "Amshan", "Props")
+    return sorted(os.path.join(d, f) for f in os.listdir(d) if re.fullmatch(re.escape(pid) + r"[A-Za-z_]*\.lean", f))
+
+
+def props_modules(pid):
+    return ["Amshan.Props." + os.path.basename(f)[:-5] for f in props_files(pid)]
 
 
 def theorem_names(pid):
-    """Fully qualified names of the theorems stated in Props/<pid>.lean."""
-    src = open(props_file(pid)).read()
-    src_nc = strip_comments(src)
-    ns = []
+    """Fully qualified names of the theorems stated in the Props files of the property."""
     names = []
-    for line in src_nc.splitlines():
-        m = re.match(r"\s*namespace\s+(\S+)", line)
-        if m:
-            ns.append(m.group(1))
-            continue
-        m = re.match(r"\s*end\s+(\S+)", line)
-        if m and ns and ns[-1] == m.group(1):
-            ns.pop()
-            continue
-        m = re.match(r"\s*(?:@\[[^\]]*\]\s*)?(?:private\s+|protected\s+)?theorem\s+(\S+)", line)
-        if m:
-            names.append(".".join(ns + [m.group(1)]))
+    for pf in props_files(pid):
+        src_nc = strip_comments(open(pf).read())
+        ns = []
+        for line in src_nc.splitlines():
+            m = re.match(r"\s*namespace\s+(\S+)", line)
+            if m:
+                ns.append(m.group(1))
+                continue
+            m = re.match(r"\s*end\s+(\S+)", line)
+            if m and ns and ns[-1] == m.group(1):
+                ns.pop()
+                continue
+            m = re.match(r"\s*(?:@\[[^\]]*\]\s*)?(?:private\s+|protected\s+)?theorem\s+(\S+)", line)
+            if m:
+                names.append(".".join(ns + [m.group(1)]))
     return names
 
 
@@ -95,19 +101,30 @@ def strip_comments(src):
     return src
 
 
-def lean_sources():
-    res = []
-    for root, _, files in os.walk(os.path.join(LEAN, "Amshan")):
-        for f in files:
-            if f.endswith(".lean"):
-                res.append(os.path.join(root, f))
-    res.append(os.path.join(LEAN, "Driver.lean"))
-    return sorted(res)
+def lean_sources(pid=None):
+    """Lean files in the transitive import closure of Props/<pid>*.lean (all files when pid is None)."""
+    if pid is None:
+        res = []
+        for root, _, files in os.walk(os.path.join(LEAN, "Amshan")):
+            for f in files:
+                if f.endswith(".lean"):
+                    res.append(os.path.join(root, f))
+        res.append(os.path.join(LEAN, "Driver.lean"))
+        return sorted(res)
+    seen, todo = set(), list(props_files(pid))
+    while todo:
+        f = todo.pop()
+        if f in seen or not os.path.exists(f):
+            continue
+        seen.add(f)
+        for m in re.finditer(r"^\s*import\s+(Amshan(?:\.\w+)+)", strip_comments(open(f).read()), flags=re.M):
+            todo.append(os.path.join(LEAN, *m.group(1).split(".")) + ".lean")
+    return sorted(seen)
 
 
-def grep_forbidden():
+def grep_forbidden(pid=None):
     hits = []
-    for path in lean_sources():
+    for path in lean_sources(pid):
         src = strip_comments(open(path).read())
         for i, line in enumerate(src.splitlines(), 1):
             if FORBIDDEN.search(line):
@@ -123,17 +140,17 @@ def audit(pid, thorough=False):
     if not names:
         res["failures"].append(f"no theorems found in Props/{pid}.lean")
         return res
-    ok, out = lake_build([f"Amshan.Props.{pid}"])
+    ok, out = lake_build(props_modules(pid))
     res["log"] = out[-6000:]
     if not ok:
         # find which declarations failed
         errs = [l for l in out.splitlines() if "error" in l.lower()][:20]
         res["failures"].append("lake build Amshan.Props.%s failed: %s" % (pid, " | ".join(errs)[:1500]))
         return res
-    hits = grep_forbidden()
+    hits = grep_forbidden(pid)
     if hits:
         res["failures"].append("forbidden construct in Lean sources: " + "; ".join(hits[:10]))
-    audit_src = f"import Amshan.Props.{pid}\n" + "".join(f"#print axioms {n}\n" for n in names)
+    audit_src = "".join(f"import {m}\n" for m in props_modules(pid)) + "".join(f"#print axioms {n}\n" for n in names)
     with tempfile.NamedTemporaryFile("w", suffix=".lean", dir=os.path.join(LEAN, ".lake"), delete=False) as f:
         f.write(audit_src)
         tmp = f.name
@@ -157,7 +174,7 @@ def audit(pid, thorough=False):
         else:
             res["discharged"] += 1
     if thorough and not res["failures"]:
-        rc, out = sh(["lake", "env", "leanchecker", f"Amshan.Props.{pid}"], cwd=LEAN, timeout=3000)
+        rc, out = sh(["lake", "env", "leanchecker"] + props_modules(pid), cwd=LEAN, timeout=3000)
         res["leanchecker_rc"] = rc
         if rc != 0:
             res["failures"].append("leanchecker rejected Amshan.Props.%s: %s" % (pid, out[-500:]))
